@@ -937,3 +937,42 @@ Lemma overlapping_close_once :
                                 EStreamClose 0] in
   closereqs_of (snd r) = [0] /\ sclosed_of (snd r) = [(0, false)] /\ finals_of (fst r) = [(0, 2)].
 Proof. vm_compute. repeat split. Qed.
+
+(* ------------------------------------------------------------------------------------------ *)
+(* C10: stream calls that are PENDING when the connection is closed - writers blocked in WriteDataPoints
+   (no flush loop exists during an outage), Flush callers, consumers blocked in ReadDataPoints /
+   ReadMetadata - return the stream-closed sentinel once the stream's own goroutines have been scheduled *)
+
+Lemma pending_stream_calls_return : forall c i s a, fix_leak (c_cfg c) = true -> c_status c = Closed ->
+  find_s i (c_streams c) = Some s -> (s_phase s = SWatch \/ s_phase s = SWaitConn) -> data_path a = true ->
+  pending_stream_call (fst (run c [EWatch i; ESup i])) i a = RStreamClosed.
+Proof.
+  intros c i s a F H Fi P D. rewrite !run_cons. cbn [run fst snd step].
+  unfold pending_stream_call. destruct P as [P|P].
+  - (* the close watcher cancels the stream context *)
+    unfold watch_step, is_closed. rewrite Fi, P, H. cbn.
+    unfold sup_step. cbn. erewrite find_upd_same; [|reflexivity|exact Fi]. cbn.
+    erewrite find_upd_same; [|reflexivity|exact Fi]. cbn. destruct a; try discriminate; reflexivity.
+  - (* outage in progress: the stream is with its supervisor, which returns on Closed *)
+    unfold watch_step. rewrite Fi, P. cbn.
+    unfold sup_step. rewrite Fi, P, H, F. cbn.
+    erewrite find_upd_same; [|reflexivity|exact Fi]. cbn. destruct a; try discriminate; reflexivity.
+Qed.
+
+Lemma pending_stream_calls_return_now : forall pre post i s a,
+  let c := fst (run (init faithful) (pre ++ ECloseCall :: post)) in
+  find_s i (c_streams c) = Some s -> (s_phase s = SWatch \/ s_phase s = SWaitConn) -> data_path a = true ->
+  pending_stream_call (fst (run c [EWatch i; ESup i])) i a = RStreamClosed.
+Proof.
+  intros pre post i s a c. apply pending_stream_calls_return.
+  - unfold c. rewrite cfg_run. reflexivity.
+  - apply closed_after_close_call.
+Qed.
+
+(* before the stream context is cancelled such a call is still blocked: nothing else ends it *)
+Lemma pending_stream_call_blocked_until_cancel : forall c i s a, find_s i (c_streams c) = Some s ->
+  (forall e b, s_phase s <> SClosed e b) -> pending_stream_call c i a = RBlocked.
+Proof.
+  intros c i s a Fi N. unfold pending_stream_call. rewrite Fi. destruct (s_phase s); try reflexivity.
+  exfalso. eapply N. reflexivity.
+Qed.
